@@ -209,9 +209,13 @@ package codegen
 //   otherwise the row's actions run; accept/discard/accumulate end the token and reset the state
 //@   ensures (result == 1 || result == 2 || result == 3) ==> l.state == 0 && na > 0 && rAct(m0, s0, na - 1) == result + 2
 //@   ensures result == 1 ==> l.token == rPar(m0, s0, na - 1)
-//@   ensures result == 4 ==> s0 == 0 && r == -1 && na == 0
+//   the end of the input is reported only at a token boundary: state 0 and no consumed text pending (C11)
+//@   ensures result == 4 ==> s0 == 0 && r == -1 && na == 0 && !old(l.pending)
+//@   ensures result == 0 ==> l.pending
+//@   ensures (result == 1 || result == 2) ==> !l.pending
+//@   ensures (result == 3 || result == 4 || result == -1) ==> l.pending == old(l.pending)
 //@   ensures (result == 4 || result == -1) ==> l.state == s0
-//@   ensures (result != 0 && na == 0) ==> result == ite(s0 == 0 && r == -1, 4, -1) && l.mode == m0 && l.modeStack == old(l.modeStack)
+//@   ensures (result != 0 && na == 0) ==> result == ite(s0 == 0 && r == -1 && !old(l.pending), 4, -1) && l.mode == m0 && l.modeStack == old(l.modeStack)
 //@   ensures (result != 0 && na == 1) ==> l.mode == m0 && l.modeStack == old(l.modeStack) && result == rAct(m0, s0, 0) - 2
 //   push_mode / pop_mode followed by the terminating action
 //@   ensures (result != 0 && na == 2 && rAct(m0, s0, 0) == 1) ==> result == rAct(m0, s0, 1) - 2 && l.mode == _lexerModes[rPar(m0, s0, 0)] && len(l.modeStack) == old(len(l.modeStack)) + 1 && l.modeStack[old(len(l.modeStack))] == m0
@@ -221,7 +225,7 @@ package codegen
 //@   ensures (result != 0 && na == 3 && rAct(m0, s0, 0) == 2 && rAct(m0, s0, 1) == 1 && old(len(l.modeStack)) > 0) ==> result == rAct(m0, s0, 2) - 2 && l.mode == _lexerModes[rPar(m0, s0, 1)] && len(l.modeStack) == old(len(l.modeStack)) && l.modeStack[len(l.modeStack) - 1] == old(l.modeStack[len(l.modeStack) - 1])
 //   the machine stays well formed
 //@   ensures wfMode(l.mode) && (result != -1 ==> 0 <= l.state && l.state < nstates(l.mode))
-//@   modifies l.token, l.state, l.mode, l.modeStack, l.modeStack[*]
+//@   modifies l.token, l.state, l.mode, l.modeStack, l.modeStack[*], l.pending
 //@   requires len(_lexerModes) >= 1 && (base(l.modeStack) != base(_lexerModes))
 //@   ensures base(l.modeStack) != base(_lexerModes)
 //@   ensures forall q int :: {l.modeStack[q]} 0 <= q && q < len(l.modeStack) ==> wfMode(l.modeStack[q])
@@ -232,7 +236,7 @@ package codegen
 //@   return hint (ab <= i && (i - ab) % 2 == 0) ==> tableFacts
 //@   call Push 0 hint tableFacts
 //@   loop 0 invariant 0 <= b && b <= e && e <= gotoN && mode == m0 && l == old(l) && i == rOff(m0, s0) + 3 && gotoN == rN(m0, s0) && end == rOff(m0, s0) + 1 + rCnt(m0, s0) && r == old(r)
-//@   loop 0 invariant l.state == s0 && l.mode == m0 && l.modeStack == old(l.modeStack) && l.token == old(l.token)
+//@   loop 0 invariant l.state == s0 && l.mode == m0 && l.modeStack == old(l.modeStack) && l.token == old(l.token) && l.pending == old(l.pending)
 //@   loop 0 invariant forall k int :: {rHi(m0, s0, k)} 0 <= k && k < b ==> rHi(m0, s0, k) < r
 //@   loop 0 invariant forall k int :: {rLo(m0, s0, k)} e <= k && k < rN(m0, s0) ==> r < rLo(m0, s0, k)
 //@   loop 0 invariant unchangedOld(fields(_LexerStateMachine), *l) && unchangedOld(elems([]uint32))
@@ -240,7 +244,7 @@ package codegen
 //@   loop 0 decreases e - b
 //@   loop 1 hint rAct(m0, s0, jj - 1) == int(mode[i-2]) && rPar(m0, s0, jj - 1) == int(mode[i-1])
 //@   loop 1 invariant mode == m0 && l == old(l) && r == old(r) && end == ab + 2*na && ab <= i && i <= end && (i - ab) % 2 == 0
-//@   loop 1 invariant l.state == s0 && l.token == old(l.token)
+//@   loop 1 invariant l.state == s0 && l.token == old(l.token) && l.pending == old(l.pending)
 //@   loop 1 invariant wfMode(l.mode) && base(l.modeStack) != base(_lexerModes)
 //@   loop 1 invariant forall q int :: {l.modeStack[q]} 0 <= q && q < len(l.modeStack) ==> wfMode(l.modeStack[q])
 //@   loop 1 invariant forall q int :: {_lexerModes[q]} 0 <= q && q < len(_lexerModes) ==> wfMode(_lexerModes[q])
@@ -364,8 +368,8 @@ package codegen
 //
 //@ func _LexerStateMachine.Reset
 //@   requires !isnil(l)
-//@   ensures isnil(l.mode) && l.state == 0 && l.modeStack == old(l.modeStack) && l.token == old(l.token)
-//@   modifies l.mode, l.state
+//@   ensures isnil(l.mode) && l.state == 0 && !l.pending && l.modeStack == old(l.modeStack) && l.token == old(l.token)
+//@   modifies l.mode, l.state, l.pending
 //
 //@ func _LexerStateMachine.Token
 //@   requires !isnil(l)
